@@ -82,6 +82,7 @@ def renderOut : Out → String
   | .cleanup f a => s!"cl{f}:{a}"
   | .frameDead f => s!"fd{f}"
   | .sched k => s!"sq{k}"
+  | .schedCancel k => s!"sc{k}"
   | .root o => s!"R={renderOutcome o}"
   | .terminate => "!!terminate"
   | .fuelOut => "!!fuel"
